@@ -13,6 +13,7 @@ fn main() {
         "c09" => rt.block_on(osv::e2e::c09::run(&a)),
         "c10" => rt.block_on(osv::e2e::c10::run(&a)),
         "c11" => rt.block_on(osv::e2e::c11::run(&a)),
+        "c12" => rt.block_on(osv::e2e::c12::run(&a)),
         "c08" => rt.block_on(osv::e2e::c08::run(&a)),
         "c16" => rt.block_on(osv::e2e::c16::run(&a)),
         "c15" => rt.block_on(osv::e2e::c15::run(&a)),
